@@ -169,13 +169,15 @@ impl AsyncFileSystem for AsyncMemoryFS {
         let prefix = format!("{}/", path);
         let handle = self.handle.read().await;
         let mut found_directory = false;
+        let mut is_directory = false;
         #[allow(clippy::needless_collect)] // need collect to satisfy lifetime requirements
         let entries: Vec<String> = handle
             .files
             .iter()
-            .filter_map(|(candidate_path, _)| {
+            .filter_map(|(candidate_path, candidate)| {
                 if candidate_path == path {
                     found_directory = true;
+                    is_directory = candidate.file_type == VfsFileType::Directory;
                 }
                 if candidate_path.starts_with(&prefix) {
                     let rest = &candidate_path[prefix.len()..];
@@ -188,6 +190,9 @@ impl AsyncFileSystem for AsyncMemoryFS {
             .collect();
         if !found_directory {
             return Err(VfsErrorKind::FileNotFound.into());
+        }
+        if !is_directory {
+            return Err(VfsErrorKind::Other("Not a directory".into()).into());
         }
         Ok(Box::new(futures::stream::iter(entries)))
     }
@@ -282,6 +287,8 @@ impl AsyncFileSystem for AsyncMemoryFS {
 
     async fn remove_file(&self, path: &str) -> VfsResult<()> {
         let mut handle = self.handle.write().await;
+        let file = handle.files.get(path).ok_or(VfsErrorKind::FileNotFound)?;
+        ensure_file(file)?;
         handle
             .files
             .remove(path)
